@@ -232,6 +232,46 @@ def is_small_leaf(g):
     return True
 
 
+def shared_helpers(prog):
+    """Hand-written helpers that several functions share and that hold no
+    decision table over the AST of their own (`container::get_list_item`,
+    `resolve_list_assign_range`, `list_len` ...): small, not used as values,
+    not switching on an `ast::` enum parameter, and not reaching an evaluator.
+    Inlined on request (`shared=True`) so that a bounds rule moved into such a
+    helper is read in the context of each function that relies on it."""
+    memo = getattr(prog, "_shared_helpers", None)
+    if memo is not None:
+        return memo
+    import ops
+    graph = prog.call_graph()
+    evs = set()
+    for f in prog.hand_fns():
+        if f.is_closure or f.from_expansion:
+            continue
+        if any(str(e).startswith("ast::") for e in ops.arg_rooted_switches(f).values()):
+            evs.add(f.path)
+    out = set()
+    taken = prog.addr_taken()
+    import anchors
+    # (the scope and value modules are vocabulary: their functions are what
+    # rules look for, so they stay calls)
+    keep_calls = (anchors.scope_module(prog), anchors.value_module(prog), "eval::error", "lexer", "builtins")
+    for g in prog.hand_fns():
+        if g.is_closure or g.from_expansion or g.generated or g.impl_trait is not None or not g.module:
+            continue
+        if g.module.startswith(keep_calls):
+            continue
+        if g.path in evs or g.path in taken or len(g.blocks) > 80 or not g.locals:
+            continue
+        if "eval::Escape" in g.locals[0]:
+            continue
+        if evs & prog.reachable_from([g.path], graph):
+            continue
+        out.add(g.path)
+    prog._shared_helpers = out
+    return out
+
+
 COMBINATORS = {
     # Option<T> combinators whose meaning is a two-way match on the receiver:
     # name -> value answered for None (the Some side calls the closure)
@@ -298,13 +338,13 @@ def _expand_combinator(prog, root, blocks, locals_, origin, bb, none_value):
 
 
 def view(prog, root, pick=None, depth=MAX_DEPTH, accessors=False, classifiers=False, closures=False,
-         leaves=False, combinators=False):
+         leaves=False, combinators=False, shared=False):
     """Synthetic Fn: `root` with its private helpers inlined.  `pick(call)`
     may veto individual call sites; with `accessors`, small kind-test
     accessors (`is_accessor`) are inlined as well, wherever they are called.
     Returns `root` itself when nothing was inlined."""
     key = (root.path, depth, getattr(pick, "__name__", None), accessors, classifiers, closures, leaves,
-           combinators)
+           combinators, shared)
     memo = getattr(prog, "_views", None)
     if memo is None:
         memo = prog._views = {}
@@ -321,6 +361,10 @@ def view(prog, root, pick=None, depth=MAX_DEPTH, accessors=False, classifiers=Fa
         lv = {p for p, g in prog.fns.items() if p != root.path and is_small_leaf(g)}
         always |= lv
         helpers |= lv
+    if shared:
+        sh = {p for p in shared_helpers(prog) if p != root.path}
+        always |= sh
+        helpers |= sh
     if closures:
         helpers |= {g.path for g in prog.fns.values() if g.full and g.is_closure
                     and (g.root_fn().path == root.path or g.root_fn().path in helpers)}
